@@ -61,6 +61,17 @@ def iterate(kind, data, quitonerror=1, bufsize=4096):
             exc = "nontermination"
         except Exception as err:  # pylint: disable=broad-except
             exc = f"{type(err).__name__}: {err}"
+        if exc is None:
+            # the reader is exhausted: iterating it again must not produce anything more
+            try:
+                again = [bytes(r) for r, _p in rdr if r is not None][:4]
+                again += [bytes(r) for r, _p in iter(rdr) if r is not None][:4]
+                if again:
+                    exc = f"re-iteration after the end yields {len(again)} more item(s)"
+            except NonTermination:
+                exc = "nontermination"
+            except Exception as err:  # pylint: disable=broad-except
+                exc = f"re-iteration after the end raises {type(err).__name__}: {err}"
         return raws, exc, errs
     finally:
         if closer:
